@@ -446,8 +446,8 @@ theorem Rsrc1.enc_gran (f : Rsrc1) :
 /-- what the loader derives from a serialised typed descriptor, for every value -/
 theorem parse_encodeKd (k : KdV) (g : KdIgnored) : parseV5KernelDescriptor (encodeKd k g) = k.derived := by
   unfold encodeKd
-  rw [parse_renderKd _ ⟨k.lds.isLt, k.priv.isLt, k.kernarg.isLt, k.entry.isLt, k.rsrc3.isLt, k.rsrc1.enc.isLt,
-    k.rsrc2.enc.isLt, g.word52.isLt⟩]
+  rw [parse_renderKd _ ⟨k.lds.isLt, k.priv.isLt, k.kernarg.isLt, k.entry.isLt, g.reserved40.isLt, k.rsrc3.isLt,
+    k.rsrc1.enc.isLt, k.rsrc2.enc.isLt⟩]
   unfold kdLoaded KdV.derived
   simp only [ofNat_toNat', fixRsrc2_enc, (Rsrc1.enc_gran k.rsrc1).1, (Rsrc1.enc_gran k.rsrc1).2]
 
@@ -494,12 +494,12 @@ theorem fixRsrc2_eq_iff (x y : BitVec 32) (c : Bool) :
     have := congrArg Rsrc2.enc h
     rwa [Rsrc2.enc_dec, Rsrc2.enc_dec] at this
 
-/-- descriptor bytes the loader interprets: 28 bytes copied verbatim, and bytes 48..51
+/-- descriptor bytes the loader interprets: 28 bytes copied verbatim, and bytes 52..55
 through the rewriting -/
 def KdAgree (a b : Bytes) : Prop :=
   (∀ i ∈ kdFullBytes, byteAt a i = byteAt b i) ∧
-  (Rsrc2.dec (BitVec.ofNat 32 (u32 a 48))).norm (decide (u32 a 8 > 0)) =
-    (Rsrc2.dec (BitVec.ofNat 32 (u32 b 48))).norm (decide (u32 a 8 > 0))
+  (Rsrc2.dec (BitVec.ofNat 32 (u32 a 52))).norm (decide (u32 a 8 > 0)) =
+    (Rsrc2.dec (BitVec.ofNat 32 (u32 b 52))).norm (decide (u32 a 8 > 0))
 
 theorem parseV5KernelDescriptor_eq_iff (a b : Bytes) :
     parseV5KernelDescriptor a = parseV5KernelDescriptor b ↔ KdAgree a b := by
@@ -510,7 +510,7 @@ theorem parseV5KernelDescriptor_eq_iff (a b : Bytes) :
   rw [← fixRsrc2_eq_iff]
   have e0 := u32_eq_iff a b 0; have e4 := u32_eq_iff a b 4; have e8 := u32_eq_iff a b 8
   have e16 := u64_eq_iff a b 16; have e16a := u32_eq_iff a b 16; have e20 := u32_eq_iff a b 20
-  have e40 := u32_eq_iff a b 40; have e44 := u32_eq_iff a b 44
+  have e40 := u32_eq_iff a b 44; have e44 := u32_eq_iff a b 48
   simp only [Nat.reduceAdd] at e0 e4 e8 e16 e16a e20 e40 e44
   constructor
   · rintro ⟨r1, r2, r3, ka, ld, pr, en, kp, sg, vg⟩
@@ -522,7 +522,7 @@ theorem parseV5KernelDescriptor_eq_iff (a b : Bytes) :
     omega
   · rintro ⟨h, r2⟩
     have hk : u32 a 8 = u32 b 8 := e8.mpr (by omega)
-    have h44 : u32 a 44 = u32 b 44 := e44.mpr (by omega)
+    have h44 : u32 a 48 = u32 b 48 := e44.mpr (by omega)
     rw [← hk, ← h44]
     exact ⟨rfl, r2, e40.mpr (by omega), rfl, e0.mpr (by omega), e4.mpr (by omega),
       e16.mpr ⟨e16a.mpr (by omega), e20.mpr (by omega)⟩, rfl, rfl, rfl⟩
@@ -532,7 +532,7 @@ theorem parseV5KernelDescriptor_eq_iff (a b : Bytes) :
 theorem kd_u32_12 (f : KdFields) (h : f.reserved12 < 4294967296) : u32 (renderKd f) 12 = f.reserved12 := by read_kd
 theorem kd_u64_24 (f : KdFields) (h : f.reserved24 < 18446744073709551616) : u64 (renderKd f) 24 = f.reserved24 := by read_kd
 theorem kd_u64_32 (f : KdFields) (h : f.reserved32 < 18446744073709551616) : u64 (renderKd f) 32 = f.reserved32 := by read_kd
-theorem kd_u32_52 (f : KdFields) (h : f.rsrc2 < 4294967296) : u32 (renderKd f) 52 = f.rsrc2 := by read_kd
+theorem kd_u32_40' (f : KdFields) (h : f.reserved40 < 4294967296) : u32 (renderKd f) 40 = f.reserved40 := by read_kd
 theorem kd_u16_56 (f : KdFields) (h : f.props < 65536) : u16 (renderKd f) 56 = f.props := by read_kd
 theorem kd_u16_58 (f : KdFields) (h : f.preload < 65536) : u16 (renderKd f) 58 = f.preload := by read_kd
 theorem kd_u32_60 (f : KdFields) (h : f.reserved60 < 4294967296) : u32 (renderKd f) 60 = f.reserved60 := by read_kd
@@ -540,7 +540,7 @@ theorem kd_u32_60 (f : KdFields) (h : f.reserved60 < 4294967296) : u32 (renderKd
 theorem ignoredOfKd_encodeKd (k : KdV) (g : KdIgnored) : ignoredOfKd (encodeKd k g) = g := by
   obtain ⟨a, b, c, d, e, f, h⟩ := g
   unfold ignoredOfKd encodeKd
-  rw [kd_u32_12, kd_u64_24, kd_u64_32, kd_u32_52, kd_u16_56, kd_u16_58, kd_u32_60]
+  rw [kd_u32_12, kd_u64_24, kd_u64_32, kd_u32_40', kd_u16_56, kd_u16_58, kd_u32_60]
   · simp only [ofNat_toNat']
   all_goals exact BitVec.isLt _
 
